@@ -85,7 +85,14 @@ RULE = ('scenario = (content layout incl. clusters of > 11 tiny files per piece,
         'empty path list, two halves), paths differing by a prefix / the name component / case / normalisation form, sizes '
         'swapped, zero-length and duplicated entries, empty / dot / dotdot / bytes components, length AND files, each alone and '
         'in front of a faithful candidate, several same-identity candidates in one call, unreadable/undecodable/invalid/'
-        'oversized torrent files, upper-case extension; non-trivial = the scenario contains a candidate that '
+        'oversized torrent files, upper-case extension; histories on ONE Torrent object (hashes from generate() / an earlier '
+        'reuse() / an assignment, the object\'s own torrent written into the searched tree, content flipped in a sampled or an '
+        'unsampled piece / restored / rewritten / deleted / truncated between the calls, piece size set, path re-assigned, another '
+        'object on the same path; every reuse() of the history is judged against the disk of its moment); search trees with symbolic '
+        'links to directories (to siblings, ancestors = real loops, descendants, through other links, relative and absolute) over '
+        'directory names that are string prefixes of one another, the faithful candidate reachable only through a link; trees with '
+        'two links to an ancestor in one cycle (search size >= 10^8 by the harness\'s count: real call under a time limit); '
+        'non-trivial = the scenario contains a candidate that '
         'passes the name/path/size match (content is sampled); distinct = distinct (scenario, callback) tuples')
 
 
@@ -513,6 +520,9 @@ def _run_chunk(scs):
                 sitems = walk_items(seen_texts, plan, cid_of)
             obs.update(fs=nodes, contents=mcontents, sitems=sitems, paths=seen_texts,
                        cwd=os.path.realpath(cwd_abs) if cwd_abs else os.path.realpath(root), euid=euid)
+            if sc.get('shape', '').startswith('symlink'):
+                # the harness's count of the search on the abstract tree (used to tell explosive trees) is checked here
+                obs['predicted'] = predicted_items(sc)
             # callback variants: none, passive, passive with a huge interval, then cancel at each call
             variants = [('none', None, 0), ('passive', (), 0), ('passive-interval', (), 1e9)]
             vi = 0
@@ -1061,7 +1071,247 @@ def gen_scenarios(ctx, scale=1.0):
                             'at': rng.randrange(5 * K)}
         sc['t_has_pieces'] = rng.random() < 0.2
         out.append(sc)
+    # 5. round 6: histories on one object; search trees with symbolic links to directories
+    out += gen_history_scenarios(ctx, rng)
+    out += gen_symtree_scenarios(ctx, rng)
     return out
+
+
+# --------------------------------------------------------------------------------------------
+# round 6 generators: histories on one object; search trees with symbolic links to directories
+
+def _small_base(rng, shape, single=False):
+    sc = _scenario(rng, shape, single)
+    if not single:
+        sc['files'] = [[f[0], min(f[1], 5 * K + 17), f[2]] for f in sc['files'][:3]]
+    sc.pop('search')
+    return sc
+
+
+def gen_history_scenarios(ctx, rng):
+    """operations on ONE Torrent object around reuse(): where its hashes come from (generate, an earlier reuse, an
+    assignment), its own torrent stored in the searched tree, the content on disk changed at the same size (in a
+    sampled / an unsampled piece), restored, rewritten, deleted, truncated; another object on the same path"""
+    out = []
+
+    def flip(sfiles, p):
+        total = sum(f[1] for f in sfiles)
+        return {'op': 'disk', 'how': 'flip', 'at': p * K + rng.randrange(min(K, total - p * K))}
+
+    def proto(single, style='std'):
+        sc = _scenario(rng, 'history', single, style)
+        sc.pop('search')
+        sfiles = _sorted_files([list(f) for f in sc['files']])
+        n = -(-sum(f[1] for f in sfiles) // K)
+        samp = py_samples(sfiles, K)
+        unsamp = [i for i in range(n) if i not in samp]
+        extra = rng.choice([[], [], [_tf(['tree', 'a', 'other.torrent'], cand=_cand(sc, name=sc['name'] + 'x'))],
+                            [_tf(['tree', '0-rev.torrent'], cand=_cand(sc, files=list(reversed(sfiles)), flip=[0]))]
+                            if not single else []])
+        sc.update(tfiles=[_tf(['tree', 'self.torrent'], cand=_cand(sc))] + extra, spell=['{S}/tree'], argkind='list',
+                  dirs=[['tree']])
+        return sc, sfiles, samp, unsamp
+    R = lambda cb='none': {'op': 'reuse', 'cb': cb}  # noqa: E731
+    G, ST = {'op': 'generate'}, {'op': 'store', 'at': ['tree', 'own.torrent']}
+    RESTORE = {'op': 'disk', 'how': 'restore'}
+    for rep in range(ctx.n(2, 10)):
+        for single, style in [(False, 'std'), (True, 'std'), (False, rng.choice(CLUSTER_STYLES))]:
+            sc0, sf, samp, unsamp = proto(single, style)
+            S = lambda: flip(sf, rng.choice(samp))  # noqa: E731
+            U = lambda: flip(sf, rng.choice(unsamp)) if unsamp else RESTORE  # noqa: E731
+            cb = rng.choice(['none', 'passive', 'passive-interval'])
+            templates = [
+                [G, ST, S(), R(cb)],
+                [G, S(), R(cb)],
+                [R(), S(), R(cb)],
+                [G, ST, U(), R(cb)],
+                [G, S(), RESTORE, R(cb)],
+                [R(cb), {'op': 'newobj'}, S(), R(cb)],
+                [{'op': 'setpieces', 'what': 0}, S(), R(cb)],
+                [S(), R(), RESTORE, R(cb), S(), R(cb)],
+                [G, ST, {'op': 'set_pl', 'pl': 2 * K}, S(), R(cb), {'op': 'set_pl', 'pl': K}, R(cb)],
+                [G, ST, {'op': 'disk', 'how': 'delete', 'file': rep}, R(cb), RESTORE, R(cb)],
+                [G, ST, {'op': 'disk', 'how': 'truncate', 'file': rep}, R(cb), RESTORE, R(cb)],
+                [R(cb), {'op': 'disk', 'how': 'rewrite-same', 'file': rep}, R(cb), S(), R(cb)],
+                [G, ST, {'op': 'repath'}, S(), R(cb)],
+                [{'op': 'setpieces', 'what': 'junk'}, R(cb), S(), R(cb), {'op': 'setpieces', 'what': 'none'}, R(cb)],
+                [G, ST, S(), R('none'), R('passive'), RESTORE, R('passive-interval')],
+            ]
+            for h in templates:
+                sc = json.loads(json.dumps(sc0))
+                sc['history'] = json.loads(json.dumps(h))
+                out.append(sc)
+    # random histories
+    for rep in range(ctx.n(40, 500)):
+        sc, sf, samp, unsamp = proto(rng.random() < 0.25, 'std' if rng.random() < 0.85 else rng.choice(CLUSTER_STYLES))
+        h = []
+        for _ in range(rng.randint(3, 9)):
+            r = rng.random()
+            cb = rng.choice(['none', 'none', 'passive', 'passive-interval'])
+            if r < 0.30:
+                h.append({'op': 'reuse', 'cb': cb})
+            elif r < 0.42:
+                h.append(flip(sf, rng.choice(samp)))
+            elif r < 0.48 and unsamp:
+                h.append(flip(sf, rng.choice(unsamp)))
+            elif r < 0.58:
+                h.append(RESTORE)
+            elif r < 0.68:
+                h.append(G)
+                if rng.random() < 0.6:
+                    h.append(ST)
+            elif r < 0.74:
+                h.append({'op': 'newobj'})
+            elif r < 0.78:
+                h.append({'op': 'repath'})
+            elif r < 0.85:
+                h.append({'op': 'setpieces', 'what': rng.choice(['junk', 'none', 0, 0])})
+            elif r < 0.90:
+                h.append({'op': 'set_pl', 'pl': rng.choice([K, 2 * K])})
+            elif r < 0.94:
+                h.append({'op': 'disk', 'how': 'rewrite-same', 'file': rng.randrange(8)})
+            else:
+                # a change of size is looked at by one call and undone (another object / generate() would see other files)
+                h += [{'op': 'disk', 'how': rng.choice(['delete', 'truncate']), 'file': rng.randrange(8)},
+                      {'op': 'reuse', 'cb': cb}, RESTORE]
+        h.append({'op': 'reuse', 'cb': rng.choice(['none', 'passive'])})
+        sc['history'] = json.loads(json.dumps(h))
+        out.append(sc)
+    return out
+
+
+# names that are string prefixes of one another (a test on the text of real paths confuses them), and one pair that is not
+PREFIX_PAIRS = [('torrents-new', 'torrents'), ('torrents', 'torrents-new'), ('ab', 'a'), ('a', 'ab'), ('data.old', 'data'),
+                ('x-1', 'x'), ('incoming', 'torrents')]
+NAME_POOL = ['t', 'to', 'tor', 'torrents', 'torrents-new', 'torrents.old', 'a', 'ab', 'abc', 'new', 'new2', 'old', 'x', 'x-1',
+             'data', 'data.old']
+
+
+def gen_symtree_scenarios(ctx, rng):
+    """search trees with symbolic links to directories: to siblings, to ancestors (real loops), to descendants, through
+    other links, absolute and relative, where the names of the directories are string prefixes of one another; the only
+    faithful candidate is reachable through a link (directed families) or anywhere (random trees)"""
+    out = []
+    # --- 1. directed: the candidate lies in a sibling B of the search directory A and is reachable only through a link
+    for variant in range(ctx.n(1, 4)):
+        for A, B in PREFIX_PAIRS:
+            proto = _small_base(rng, 'symlink-sibling')
+            good, other = _cand(proto), _cand(proto, name=proto['name'] + 'x')
+            sub = rng.choice(['2024', 'a', B])
+            forms = [
+                ([{'at': [A, 'old'], 'to': '../' + B}], [_tf([B, sub, 'good.torrent'], cand=good)], ['{S}/' + A], None),
+                ([{'at': [A, 'old'], 'to': '{S}/' + B}], [_tf([B, 'good.torrent'], cand=good)], ['{S}/' + A + '/'], None),
+                ([{'at': [A, 'sub', 'old'], 'to': '../../' + B}], [_tf([B, sub, 'good.torrent'], cand=good)], [A], ['search']),
+                ([{'at': [A, 'old'], 'to': 'old2'}, {'at': [A, 'old2'], 'to': '../' + B + '/'}],
+                 [_tf([B, sub, 'good.torrent'], cand=good)], ['{S}/' + A], None),
+                ([{'at': ['p', 'q', A, 'old'], 'to': '../' + B}], [_tf(['p', 'q', B, sub, 'good.torrent'], cand=good)],
+                 ['q/' + A], ['search', 'p']),
+                ([{'at': ['ln'], 'to': A}, {'at': [A, 'old'], 'to': '../' + B}], [_tf([B, sub, 'good.torrent'], cand=good)],
+                 ['{S}/ln'], None),
+                ([{'at': [A, 'deep', 'er', 'old'], 'to': '{S}/' + B + '/' + sub}], [_tf([B, sub, 'good.torrent'], cand=good)],
+                 ['{S}/' + A, '{S}/nowhere'], None),
+            ]
+            for i, (links, tfs, spell, cwd) in enumerate(forms):
+                sc = json.loads(json.dumps(proto))
+                top = links[-1]['at'][:-1]
+                sc.update(tfiles=tfs + [_tf(top + ['other.torrent'], cand=other)], links=links, spell=spell, cwd=cwd,
+                          dirs=[top], argkind=ARGKINDS[(i + variant) % 4], shape='symlink-sibling', max_cancel=2)
+                out.append(sc)
+    # --- 2. directed: links to ancestors (real loops: the OS's limit of 40 links ends them), the ancestor above the
+    #        search path with other children; links to descendants; links reached through links
+    for variant in range(ctx.n(1, 4)):
+        proto = _small_base(rng, 'symlink-loop')
+        good, other = _cand(proto), _cand(proto, name=proto['name'] + 'x')
+        n1, n2 = rng.choice([('tree', 'tree-2'), ('a', 'ab'), ('tor', 'torrents')])
+        shapes = [
+            ([{'at': [n1, 'a', 'up'], 'to': '..'}], [_tf([n1, 'c', 'good.torrent'], cand=good)], ['{S}/' + n1 + '/a']),
+            ([{'at': [n1, 'a', 'b', 'up'], 'to': '../..'}], [_tf([n1, 'good.torrent'], cand=good)], ['{S}/' + n1]),
+            ([{'at': [n1, 'a', 'up'], 'to': '{S}/' + n1}], [_tf([n1, 'zz', 'good.torrent'], cand=good)], ['{S}/' + n1 + '/a/']),
+            ([{'at': [n1, 'a', 'up'], 'to': '../../' + n2}, {'at': [n2, 'back'], 'to': '../' + n1 + '/a'}],
+             [_tf([n2, 'good.torrent'], cand=good)], ['{S}/' + n1]),
+            ([{'at': [n1, 'down'], 'to': 'a/b'}], [_tf([n1, 'a', 'b', 'good.torrent'], cand=good)], ['{S}/' + n1]),
+            ([{'at': [n1, 'l1'], 'to': 'l2'}, {'at': [n1, 'l2'], 'to': 'l3/'}, {'at': [n1, 'l3'], 'to': '../' + n2}],
+             [_tf([n2, 'k', 'good.torrent'], cand=good)], ['{S}/' + n1]),
+            ([{'at': [n1, 'self'], 'to': '.'}], [_tf([n1, 'good.torrent'], cand=good)], ['{S}/' + n1]),
+            ([{'at': [n1, 'self'], 'to': '../' + n1}], [_tf([n1, 'sub', 'good.torrent'], cand=good)], ['{S}/' + n1 + '/sub/..']),
+        ]
+        for i, (links, tfs, spell) in enumerate(shapes):
+            sc = json.loads(json.dumps(proto))
+            sc.update(tfiles=tfs + [_tf([n1, '0-other.torrent'], cand=other)], links=links, spell=spell, cwd=None,
+                      dirs=[[n1, 'a', 'b'], [n2]], argkind=ARGKINDS[(i + variant) % 4], shape='symlink-loop', max_cancel=2)
+            out.append(sc)
+    # --- 3. random trees over the prefix name pool
+    made, tries, explosive = 0, 0, []
+    want = ctx.n(50, 600)
+    while made < want and tries < want * 6:
+        tries += 1
+        proto = _small_base(rng, 'symlink-tree')
+        good, other = _cand(proto), _cand(proto, name=proto['name'] + 'x')
+        dirs = [[]]
+        used = {(): set()}
+        for _ in range(rng.randint(3, 7)):
+            par = rng.choice([d for d in dirs if len(d) < 3])
+            nm = rng.choice([n for n in NAME_POOL if n not in used[tuple(par)]])
+            used[tuple(par)].add(nm)
+            dirs.append(par + [nm])
+            used[tuple(par + [nm])] = set()
+        real = [d for d in dirs if d]
+        tfs = [_tf(rng.choice(real) + ['good.torrent'], cand=good)]
+        used[tuple(tfs[0]['at'][:-1])].add('good.torrent')
+        for j in range(rng.randint(0, 2)):
+            d = rng.choice(real)
+            nm = f'{j}-other' + rng.choice(['.torrent', '.TORRENT'])
+            tfs.append(_tf(d + [nm], cand=other))
+            used[tuple(d)].add(nm)
+        links = []
+        for _ in range(rng.randint(1, 4)):
+            at_dir = rng.choice(real)
+            free = [n for n in NAME_POOL + ['ln', 'up', 'cur'] if n not in used[tuple(at_dir)]]
+            nm = rng.choice(free)
+            used[tuple(at_dir)].add(nm)
+            r = rng.random()
+            if r < 0.15 and links:
+                prev = rng.choice(links)['at']         # through another link
+                to = os.path.relpath('/' + '/'.join(prev), '/' + '/'.join(at_dir)) if rng.random() < 0.5 \
+                    else '{S}/' + '/'.join(prev)
+            else:
+                tgt = rng.choice(dirs)
+                to = (os.path.relpath('/' + '/'.join(tgt), '/' + '/'.join(at_dir)) if r < 0.7
+                      else '{S}' + ''.join('/' + c for c in tgt))
+            if rng.random() < 0.15:
+                to += rng.choice(['/', '/.'])
+            links.append({'at': at_dir + [nm], 'to': to})
+        start = rng.choice(real + [ln['at'] for ln in links])
+        sc = json.loads(json.dumps(proto))
+        if rng.random() < 0.3 and len(start) > 1 and start[:1] in real:
+            spell, cwd = ['/'.join(start[1:])], ['search'] + start[:1]
+        else:
+            spell, cwd = ['{S}/' + '/'.join(start)], None
+        sc.update(tfiles=tfs, links=links, dirs=real, spell=spell, cwd=cwd, argkind=rng.choice(ARGKINDS[:4]),
+                  shape='symlink-tree', max_cancel=1)
+        try:
+            pred = predicted_items(sc)
+        except (KeyError, ValueError, RecursionError):
+            continue
+        if pred is None:
+            continue
+        if pred <= SMALL // 6:
+            out.append(sc)
+            made += 1
+        elif pred >= BLOWUP and len(explosive) < ctx.n(1, 6):
+            sc.update(explosive=True, explosive_cb='passive', shape='loops-explosive')
+            explosive.append(sc)
+    # --- 4. two links to an ancestor in one cycle: the search is exponential in the OS's link limit
+    proto = _small_base(rng, 'loops-explosive')
+    good, other = _cand(proto), _cand(proto, name=proto['name'] + 'x')
+    for links in ([{'at': ['tree', 'a'], 'to': '.'}, {'at': ['tree', 'b'], 'to': '.'}],
+                  [{'at': ['tree', 'x', 'u'], 'to': '..'}, {'at': ['tree', 'y', 'v'], 'to': '{S}/tree'}])[:ctx.n(1, 2)]:
+        sc = json.loads(json.dumps(proto))
+        sc.update(tfiles=[_tf(['tree', 'good.torrent'], cand=good), _tf(['tree', '0-other.torrent'], cand=other)], links=links,
+                  dirs=[['tree']], spell=['{S}/tree'], cwd=None, argkind='list', shape='loops-explosive', explosive=True,
+                  explosive_cb='passive')
+        explosive.append(sc)
+    return out + explosive
 
 
 # --------------------------------------------------------------------------------------------
@@ -1133,32 +1383,57 @@ def check_result(before, res, after, rep, items, stops, what):
 def _key(sc, label):
     return json.dumps([sc['name'], sc['files'], sc['tfiles'], sc.get('search'), sc.get('spell'), sc.get('cwd'),
                        sc.get('links'), sc.get('perms'), sc.get('euid'), sc.get('argkind'), sc.get('damage'),
-                       sc.get('plmin'), sc.get('plmax'), label], sort_keys=True)
+                       sc.get('plmin'), sc.get('plmax'), sc.get('history'), sc.get('step'), label], sort_keys=True)
 
 
 def evaluate(ctx, drv, scs):
+    """dispatch by kind of scenario: plain (one world, callback variants), history (operations on one object with
+    disk changes in between), explosive (search trees whose visit count is astronomic: bounded by a time limit)"""
     os.umask(0o022)
+    plain = [sc for sc in scs if 'history' not in sc and not sc.get('explosive')]
+    hist = [sc for sc in scs if 'history' in sc]
+    expl = [sc for sc in scs if sc.get('explosive') and 'history' not in sc]
+    for fn, part in ((evaluate_plain, plain), (evaluate_hist, hist), (evaluate_explosive, expl)):
+        if part:
+            fn(ctx, drv, part)
+
+
+def world_req(obs, t, run):
+    return {'t': t, 'fs': obs['fs'], 'cwd': obs['cwd'], 'paths': obs['paths'], 'contents': obs['contents'],
+            'cb': run['stops'], 'elapsed': run['elapsed'], 'fuel': FUEL, 'maxSize': MAXSZ}
+
+
+def tor_json(obs, run):
+    t = obs['t']
+    tj = {'name': t['name'], 'single': t['single'], 'pl': t['pl'] or 0, 'plMin': t['plMin'], 'plMax': t['plMax'],
+          'files': [{'path': p, 'size': s} for p, s in t['files']]}
+    if run is not None and run['before']['pieces'] is not None:
+        tj['pieces'] = run['before']['pieces']
+    return tj
+
+
+def evaluate_plain(ctx, drv, scs):
     results = common.pmap(_run_chunk, common.split(scs, common.NPROC * 6))
     flat = [x for chunk in results for x in chunk]
     reqs, owner = [], []
     for si, (sc, obs) in enumerate(flat):
         if 'harness_exc' in obs:
             continue
-        t = obs['t']
-        tj = {'name': t['name'], 'single': t['single'], 'pl': t['pl'], 'plMin': t['plMin'], 'plMax': t['plMax'],
-              'files': [{'path': p, 'size': s} for p, s in t['files']]}
         for ri, run in enumerate(obs['runs']):
-            tj2 = dict(tj)
-            if run['before']['pieces'] is not None:
-                tj2['pieces'] = run['before']['pieces']
-            reqs.append({'op': 'c18.reusePaths', 't': tj2, 'fs': obs['fs'], 'cwd': obs['cwd'], 'paths': obs['paths'],
-                         'contents': obs['contents'], 'cb': run['stops'], 'elapsed': run['elapsed'], 'fuel': FUEL,
-                         'maxSize': MAXSZ})
+            reqs.append(dict(world_req(obs, tor_json(obs, run), run), op='c18.reusePaths'))
             owner.append((si, ri))
     replies = drv.run(reqs)
     for (si, ri), rep in zip(owner, replies):
         sc, obs = flat[si]
-        run = obs['runs'][ri]
+        judge(ctx, sc, obs, obs['runs'][ri], rep)
+    for sc, obs in flat:
+        if 'harness_exc' in obs:
+            ctx.machinery_error('harness could not build/run the scenario: ' + obs['harness_exc'], sc)
+
+
+def judge(ctx, sc, obs, run, rep):
+    """one reuse() call: implementation against the harness's walk (S), the model (M) against both"""
+    if True:
         case = {'scenario': {k: v for k, v in sc.items()}, 'callback': run['label'], 'stops': run['stops'],
                 'interval': 0 if run['elapsed'] else 1e9}
         # the model's search against the operating system's (the harness's own walk of the real tree)
@@ -1177,9 +1452,20 @@ def evaluate(ctx, drv, scs):
         elif mitems != sitems:
             ctx.machinery_error('the model of the search (path resolution by the OS, find_torrent_files) yields other items '
                                 f'than the walk of the real file system: model {mitems[:6]} … real {sitems[:6]} …', case)
-            continue
+            return 'machinery'
+        if obs.get('predicted') is not None and not rep['overflow'] and obs['predicted'] != len(sitems):
+            ctx.machinery_error(f'the harness\'s count of the search ({obs["predicted"]} items, resolution on the abstract tree) '
+                                f'differs from its walk of the real tree ({len(sitems)} items)', case)
+            return 'machinery'
+        if not rep.get('freshSame', True):
+            ctx.machinery_error('the model\'s outcome depends on the hashes the object holds (contradicts '
+                                'C18_history_independent)', case)
+            return 'machinery'
         items = [contents[cid] if kind == 'torrent' else {'kind': kind} for _, kind, cid in sitems]
         sampled = any(i.get('fileMatch') for i in rep['items'])
+        memo_differs = rep.get('memoRes') is not None and rep['memoRes'] != rep['model']['res']
+        if memo_differs:
+            ctx.dist['carried-hashes-would-mislead'] += 1
         ctx.case(key=_key(sc, run['label']), nontrivial=sampled,
                  kind=sc['shape'].split(':')[0] + '/' + run['label'].split('@')[0])
         ctx.dist['result:' + json.dumps(run['res'], sort_keys=True)] += 1
@@ -1204,26 +1490,555 @@ def evaluate(ctx, drv, scs):
                     bad = f'reuse() accepted a faithful candidate but verify() gives {run["verify"]}'
                 ctx.dist['verify-after-accept:' + str(run['verify'])] += 1
         if bad is not None:
+            if 'history' in sc:
+                bad = f'step {sc.get("step")} of a history on one object ({[h["op"] for h in sc["history"]]}): ' + bad
             ctx.violation(bad, case, {'model': model, 'search': sitems[:40], 'items': rep['items'][:40],
                                       'mustFind': rep['mustFind']}, impl, finding_matchers=MATCHERS)
-            continue
+            return 'violation'
         if rep['hyp']:
             mbad = check_spec({k: before[k] for k in ('pl', 'pieces', 'files', 'name')}, m['res'], mafter, rep, items,
                               run['stops'], 'model', m['calls'], sitems)
             if mbad is not None:
                 ctx.machinery_error('the model violates the specification under the hypothesis: ' + mbad, case)
-                continue
+                return 'machinery'
             if impl != model:
                 ctx.corr_break('c18.reusePaths', case, model, impl)
+                return 'corr'
         else:
             ctx.dist['outside-hyp'] += 1
         if sampled and run['label'] == 'passive':
             ctx.sample({'case': {'shape': sc['shape'], 'files': sc['files'][:6], 'spell': sc.get('spell'), 'cwd': sc.get('cwd'),
-                                 'links': sc.get('links'), 'tfiles': [t['at'] for t in sc['tfiles']][:8]},
+                                 'links': sc.get('links'), 'tfiles': [t['at'] for t in sc['tfiles']][:8],
+                                 'history': [h['op'] for h in sc.get('history', [])] or None, 'step': sc.get('step')},
                         'res': run['res'], 'calls': [[rel(c[0])] + c[1:] for c in run['calls'][:4]]})
-    for sc, obs in flat:
+
+
+# --------------------------------------------------------------------------------------------
+# round 6: the size of a search, computed on the abstract tree (symbolic links to directories make the
+# same real directory reachable under many spellings; with two links to an ancestor in one cycle the
+# number of spellings the search visits is exponential in the OS's link limit)
+
+MAXLINKS = 40
+BLOWUP = 10 ** 8           # ≥ this many yielded items: cannot end within the time limit (≈ 30 000 items/s)
+SMALL = 3000               # ≤ this many: evaluated in full by implementation, model and walk
+TIME_LIMIT = 3.0
+
+
+def abstract_nodes(sc):
+    """inode table of the search tree as the scenario describes it (no disk involved): 0 = '/', 1 = '/S' (the
+    search root `{S}`); link targets with `{S}` replaced by '/S'.  Only for trees without permissions."""
+    nodes = [{'k': 'd', 'r': True, 'x': True, 'e': [['S', 1]]}, {'k': 'd', 'r': True, 'x': True, 'e': []}]
+
+    def mkdir(comps):
+        cur = 1
+        for c in comps:
+            ent = dict(nodes[cur]['e'])
+            if c not in ent:
+                nodes.append({'k': 'd', 'r': True, 'x': True, 'e': []})
+                nodes[cur]['e'].append([c, len(nodes) - 1])
+                ent[c] = len(nodes) - 1
+            cur = ent[c]
+        return cur
+    for d in sc.get('dirs', []):
+        mkdir(d)
+    for tf in sc['tfiles']:
+        if tf['kind'] == 'emptydir':
+            mkdir(tf['at'])
+            continue
+        parent = mkdir(tf['at'][:-1])
+        if tf['kind'] == 'unreadable':
+            nodes.append({'k': 'l', 't': '/S-nowhere'})
+        else:
+            nodes.append({'k': 'f', 'size': MAXSZ + 1 if tf['kind'] == 'oversized' else 1})
+        nodes[parent]['e'].append([tf['at'][-1], len(nodes) - 1])
+    for ln in sc.get('links', []):
+        parent = mkdir(ln['at'][:-1])
+        nodes.append({'k': 'l', 't': ln['to'].replace('{S}', '/S')})
+        nodes[parent]['e'].append([ln['at'][-1], len(nodes) - 1])
+    return nodes
+
+
+def py_walk(nodes, st, comps, links):
+    """path_resolution(7) on the inode table: ('dir', chain, links left) | ('file', ino, links left) | ('err', errno name);
+    `st` = chain of real directories below '/', outermost first"""
+    comps = list(comps)
+    while comps:
+        c = comps.pop(0)
+        if c == '':
+            continue
+        node = nodes[st[-1] if st else 0]
+        if node['k'] != 'd':
+            return ('err', 'notdir')
+        if not node['x']:
+            return ('err', 'acces')
+        if c == '.':
+            continue
+        if c == '..':
+            st = st[:-1]
+            continue
+        ino = dict(node['e']).get(c)
+        if ino is None:
+            return ('err', 'noent')
+        n = nodes[ino]
+        if n['k'] == 'd':
+            st = st + (ino,)
+        elif n['k'] == 'f':
+            return ('file', ino, links) if not comps else ('err', 'notdir')
+        else:
+            if links == 0:
+                return ('err', 'loop')
+            links -= 1
+            if n['t'].startswith('/'):
+                st = ()
+            comps = n['t'].split('/') + comps
+    return ('dir', st, links)
+
+
+def count_items(nodes, st, links, memo=None):
+    """how many items `find_torrent_files` yields below the directory `st` reached with `links` links still allowed:
+    what a spelling followed by one more name denotes depends only on where the spelling leads and on the links used so
+    far (C18_resolve_push), so the count is a function of that state"""
+    memo = {} if memo is None else memo
+    key = (st, links)
+    if key in memo:
+        return memo[key]
+    node = nodes[st[-1] if st else 0]
+    total = 0
+    if not node['r']:
+        total = 1
+    else:
+        for name, _ in node['e']:
+            r = py_walk(nodes, st, [name], links)
+            if r[0] == 'dir':
+                total += count_items(nodes, r[1], r[2], memo)
+            elif r[0] == 'file':
+                total += 1 if name.lower().endswith('.torrent') and nodes[r[1]].get('size', 0) <= MAXSZ else 0
+            else:
+                total += 1          # a *.torrent name that cannot be stat'ed, or a path that does not exist
+    memo[key] = total
+    return total
+
+
+def predicted_items(sc):
+    """number of items the search of this scenario yields, from the description alone (None: not computable here)"""
+    if sc.get('perms') or sc.get('euid') or 'spell' not in sc:
+        return None
+    nodes = abstract_nodes(sc)
+    cwd = (1,) + tuple(_abs_lookup(nodes, sc['cwd'][1:])) if sc.get('cwd') and sc['cwd'][0] == 'search' else None
+    total = 0
+    for text in sc['spell']:
+        if text.startswith('{S}'):
+            r = py_walk(nodes, (), ('/S' + text[3:]).split('/'), MAXLINKS)
+        elif text.startswith('{R}') or text.startswith('/') or cwd is None or text == '':
+            return None
+        else:
+            r = py_walk(nodes, cwd, text.split('/'), MAXLINKS)
+        base = [c for c in text.split('/')]
+        last = base[-1] if base else ''
+        if r[0] == 'dir':
+            total += count_items(nodes, r[1], r[2])
+        elif r[0] == 'file':
+            total += 1 if last.lower().endswith('.torrent') and nodes[r[1]].get('size', 0) <= MAXSZ else 0
+        else:
+            total += 1
+    return total
+
+
+def _abs_lookup(nodes, comps):
+    """chain of real directories for plain names below '/S' (cwd given as real components)"""
+    out, cur = [], 1
+    for c in comps:
+        cur = dict(nodes[cur]['e'])[c]
+        if nodes[cur]['k'] != 'd':
+            raise ValueError('cwd must be given by real directories')
+        out.append(cur)
+    return out
+
+
+def loop_links(sc):
+    """the links of the scenario that lead to the directory they lie in or to a real ancestor of it"""
+    nodes = abstract_nodes(sc)
+    out = []
+    for ln in sc.get('links', []):
+        try:
+            here = (1,) + tuple(_abs_lookup(nodes, ln['at'][:-1]))
+        except (KeyError, ValueError):
+            continue
+        r = py_walk(nodes, here, [ln['at'][-1]], MAXLINKS)
+        if r[0] == 'dir' and here[:len(r[1])] == r[1]:
+            out.append(ln['at'])
+    return out
+
+
+def _m_loop_blowup(case, observed, finding):
+    """reuse() did not return within the time limit, and the searched tree has a real loop (a symbolic link that leads to
+    the directory it lies in or to an ancestor of it) and at least one more link to a directory (the loop can be walked in more
+    than one way), and the harness's count of the search is astronomic"""
+    sc = case.get('scenario', {})
+    try:
+        return ('timeout' in ((observed or {}).get('res') or {}) and len(loop_links(sc)) >= 1
+                and len(sc.get('links', [])) >= 2 and (predicted_items(sc) or 0) >= BLOWUP)
+    except Exception:  # noqa
+        return False
+
+
+MATCHERS['loop_links_blowup'] = _m_loop_blowup
+
+
+# --------------------------------------------------------------------------------------------
+# round 6: explosive search trees — real call under a time limit, no model evaluation (the code-shaped model
+# `find` is as exponential as the code: C18_two_loops_blowup)
+
+def _call_with_limit(fn, limit):
+    """run fn() in a forked child; ('done', value) or ('timeout', limit)"""
+    import pickle
+    import select
+    import signal
+    r, w = os.pipe()
+    pid = os.fork()
+    if pid == 0:
+        try:
+            os.close(r)
+            try:
+                val = ('done', fn())
+            except BaseException as e:  # noqa
+                val = ('done', {'res': {'raised': exc_kind(e)}})
+            with os.fdopen(w, 'wb') as f:
+                pickle.dump(val, f)
+        finally:
+            os._exit(0)
+    os.close(w)
+    try:
+        ready, _, _ = select.select([r], [], [], limit)
+        if not ready:
+            os.kill(pid, signal.SIGKILL)
+            return ('timeout', limit)
+        with os.fdopen(os.dup(r), 'rb') as f:
+            data = f.read()
+        return pickle.loads(data) if data else ('timeout', limit)
+    finally:
+        os.close(r)
+        try:
+            os.waitpid(pid, 0)
+        except OSError:
+            pass
+
+
+def _run_explosive_chunk(scs):
+    torf = common.import_torf()
+    wd = common.worker_dir()
+    out = []
+    for sc in scs:
+        obs = {}
+        try:
+            cpath, root, sroot, plan = build(wd, sc)
+            texts = [x.replace('{S}', sroot).replace('{R}', root) for x in sc['spell']]
+            label = sc.get('explosive_cb', 'passive')
+
+            def call():
+                t = torf.Torrent(path=cpath)
+                before = meta_obs(t)
+                calls = []
+
+                def cb(tt, path, done, total, is_match, exc):
+                    calls.append(is_match)
+                try:
+                    r = t.reuse(list(texts), callback=None if label == 'none' else cb)
+                    res = {'ok': r} if isinstance(r, bool) else {'ok': repr(r)}
+                except BaseException as e:  # noqa
+                    res = {'raised': exc_kind(e)}
+                return {'res': res, 'before': before, 'after': meta_obs(t), 'ncalls': len(calls)}
+            cwd_abs = os.path.join(root, *sc['cwd']) if sc.get('cwd') is not None else None
+            for x in texts:
+                rp = os.path.realpath(os.path.join(cwd_abs or root, x))
+                assert (rp + '/').startswith(os.path.realpath(root) + '/'), f'spelling {x!r} leaves the scratch root'
+            with running_as(cwd_abs, 0):
+                kind, val = _call_with_limit(call, TIME_LIMIT)
+            obs = {'label': label, 'res': {'timeout': TIME_LIMIT}} if kind == 'timeout' else dict(val, label=label)
+            texts = [os.path.join(cwd_abs or root, x) for x in texts]
+            # what a search that visits every real directory once would reach
+            seen, reach = set(), []
+
+            def visit(p):
+                rp = os.path.realpath(p)
+                if rp in seen:
+                    return
+                seen.add(rp)
+                for n in sorted(os.listdir(rp)):
+                    q = os.path.join(rp, n)
+                    if os.path.isdir(q):
+                        visit(q)
+                    elif n.lower().endswith('.torrent') and os.path.isfile(q):
+                        reach.append(plan.get(os.stat(q).st_ino, ('undecodable',)))
+            for x in texts:
+                visit(x)
+            obs['reach'] = [r[1] if r[0] == 'torrent' else {'kind': r[0]} for r in reach]
+        except BaseException:  # noqa
+            import traceback
+            obs['harness_exc'] = traceback.format_exc()[-1500:]
+        out.append((sc, obs))
+    return out
+
+
+def evaluate_explosive(ctx, drv, scs):
+    results = common.pmap(_run_explosive_chunk, [[sc] for sc in scs], procs=max(1, min(len(scs), common.NPROC * 2)))
+    for sc, obs in [x for chunk in results for x in chunk]:
         if 'harness_exc' in obs:
             ctx.machinery_error('harness could not build/run the scenario: ' + obs['harness_exc'], sc)
+            continue
+        case = {'scenario': dict(sc), 'callback': obs['label'], 'stops': None if obs['label'] == 'none' else [], 'interval': 0}
+        pred = predicted_items(sc)
+        if pred is None or pred < BLOWUP:
+            ctx.machinery_error(f'scenario marked explosive but the predicted search size is {pred}', case)
+            continue
+        ctx.case(key=_key(sc, obs['label']), nontrivial=True, kind='loops-explosive/' + obs['label'])
+        ctx.dist['result:' + json.dumps(obs['res'], sort_keys=True)] += 1
+        good = [c for c in obs['reach'] if c.get('name') == sc['name']]
+        expected = {'reachable candidates with the torrent\'s name': len(good), 'loop links': loop_links(sc),
+                    'items the search would yield': '>= 10^8' if pred >= BLOWUP else pred}
+        if 'timeout' in obs['res']:
+            ctx.violation(f'reuse() does not return within {TIME_LIMIT} s: the searched tree has {len(sc.get("links", []))} symbolic '
+                          f'links to directories, {len(loop_links(sc))} of them to the directory they lie in / an ancestor of it (a real '
+                          'loop that can be walked in more than one way); there is no loop protection, only the OS\'s limit of 40 links '
+                          'per resolution ends the descent — the search (and `.total`, which walks everything first) '
+                          f'yields about {pred:.3g} items; a faithful candidate in the searched path is never reached',
+                          case, expected, {'res': obs['res']}, finding_matchers=MATCHERS)
+            continue
+        # the call came back: every scenario of this family holds one faithful candidate and otherwise only readable
+        # valid torrents with another name
+        after, before = obs['after'], obs['before']
+        if not good:
+            if obs['res'] != {'ok': False} or any(after[k] != before[k] for k in ('pl', 'pieces', 'files', 'name')):
+                ctx.violation(f'no candidate with the torrent\'s name is reachable but the result is {obs["res"]} / the metainfo changed',
+                              case, expected, {'res': obs['res'], 'after': after}, finding_matchers=MATCHERS)
+        elif obs['res'] != {'ok': True}:
+            ctx.violation(f'a faithful candidate is reachable but the result is {obs["res"]}', case, expected, {'res': obs['res']},
+                          finding_matchers=MATCHERS)
+        elif not any(after['pl'] == c['pl'] and after['pieces'] == c['hashes'] for c in good):
+            ctx.violation('returned True but the torrent does not carry the reachable candidate\'s hashes', case, expected,
+                          {'res': obs['res'], 'after': after}, finding_matchers=MATCHERS)
+
+
+# --------------------------------------------------------------------------------------------
+# round 6: histories on ONE Torrent object (hashes from generate() / an earlier reuse() / an assignment;
+# the object's own torrent stored in the searched tree; the content on disk changed in between)
+
+def py_samples(files, pl):
+    """first / middle / last piece of every file of a layout (the generator's own arithmetic, used only to aim)"""
+    out, pos = set(), 0
+    for _, size, _ in files:
+        if size:
+            a, b = pos // pl, (pos + size - 1) // pl
+            out.update([a, a + (b - a + 1) // 2, b])
+        pos += size
+    return sorted(out)
+
+
+def _stream_locate(files, off):
+    """(index of the file, offset in it) of stream offset `off` in a layout"""
+    pos = 0
+    for i, (_, size, _) in enumerate(files):
+        if off < pos + size:
+            return i, off - pos
+        pos += size
+    raise ValueError(off)
+
+
+def _cand_from_object(t):
+    """the candidate an object's torrent file holds (for the model), from its metainfo"""
+    info = t.metainfo['info']
+    pieces = info['pieces']
+    single = 'length' in info
+    files = ([{'path': [], 'size': info['length']}] if single
+             else [{'path': list(f['path']), 'size': f['length']} for f in info['files']])
+    return {'name': info['name'], 'single': single, 'pl': info['piece length'],
+            'hashes': [pieces[i:i + 20].hex() for i in range(0, len(pieces), 20)], 'bytesPath': False, 'files': files}
+
+
+def _run_hist_chunk(scs):
+    torf = common.import_torf()
+    wd = common.worker_dir()
+    out = []
+    for sc in scs:
+        hobs = {'ops': [], 'steps': []}
+        try:
+            cpath, root, sroot, plan = build(wd, sc)
+            texts = [x.replace('{S}', sroot).replace('{R}', root) for x in sc['spell']]
+            sfiles = _sorted_files([list(f) for f in sc['files']])
+
+            def fpath(i):
+                return cpath if sc['single'] else os.path.join(cpath, *sfiles[i][0])
+
+            def mk():
+                return torf.Torrent(path=cpath, piece_size_min=sc.get('plmin'), piece_size_max=sc.get('plmax'))
+            t = mk()
+            hobs['t0'] = dict(meta_obs(t), plMin=t.piece_size_min, plMax=t.piece_size_max, single=t.mode == 'singlefile')
+            for k, st in enumerate(sc['history']):
+                op = st['op']
+                mops = []                      # what the step is for the model
+                note = None
+                if op == 'generate':
+                    t.generate(threads=1)
+                    info = t.metainfo['info']
+                    order = [f['path'] for f in info['files']] if 'files' in info else [[]]
+                    datas = []
+                    for comps in order:
+                        with open(os.path.join(cpath, *comps) if comps else cpath, 'rb') as fh:
+                            datas.append(fh.read())
+                    mops = [{'k': 'generate', 'hashes': stream_hashes(datas, info['piece length'])}]
+                elif op == 'store':
+                    dest = os.path.join(sroot, *st['at'])
+                    os.makedirs(os.path.dirname(dest), exist_ok=True)
+                    try:
+                        t.write(dest, overwrite=True)
+                        plan[os.lstat(dest).st_ino] = ('torrent', _cand_from_object(t))
+                    except torf.TorfError as e:
+                        note = 'not stored: ' + exc_kind(e)
+                elif op == 'disk':
+                    if st['how'] == 'flip':
+                        i, off = _stream_locate(sfiles, st['at'])
+                        with open(fpath(i), 'r+b') as f:
+                            f.seek(off)
+                            b = f.read(1)
+                            f.seek(off)
+                            f.write(bytes([b[0] ^ 0xff]))
+                    elif st['how'] == 'restore':
+                        for i, (comps, size, key) in enumerate(sfiles):
+                            os.makedirs(os.path.dirname(fpath(i)), exist_ok=True)
+                            with open(fpath(i), 'wb') as f:
+                                f.write(fbytes(sc['cseed'], key, size))
+                    elif st['how'] == 'rewrite-same':      # new inode, new mtime, same bytes
+                        i = st['file'] % len(sfiles)
+                        with open(fpath(i), 'rb') as f:
+                            data = f.read()
+                        os.unlink(fpath(i))
+                        with open(fpath(i), 'wb') as f:
+                            f.write(data)
+                    elif st['how'] == 'delete':
+                        os.unlink(fpath(st['file'] % len(sfiles)))
+                    elif st['how'] == 'truncate':
+                        q = fpath(st['file'] % len(sfiles))
+                        with open(q, 'r+b') as f:
+                            f.truncate(os.path.getsize(q) - 1)
+                elif op == 'newobj':
+                    t = mk()
+                    mops = [{'k': 'repath'}]
+                elif op == 'repath':
+                    t.path = cpath
+                    mops = [{'k': 'repath'}]
+                elif op == 'setpieces':
+                    info = t.metainfo['info']
+                    if st['what'] == 'none':
+                        info.pop('pieces', None)
+                        mops = [{'k': 'setPieces', 'pieces': None}]
+                    elif st['what'] == 'junk':
+                        info['pieces'] = b'\x07' * 20 * max(1, t.pieces)
+                        mops = [{'k': 'setPieces', 'pieces': ['07' * 20] * max(1, t.pieces)}]
+                    else:                     # the pieces and piece length of one of the stored candidates
+                        cinfo, cm = cand_meta(sc, sc['tfiles'][st['what']]['cand'])
+                        t.piece_size = cm['pl']
+                        info['pieces'] = cinfo['pieces']
+                        mops = [{'k': 'setPl', 'pl': cm['pl']}, {'k': 'setPieces', 'pieces': cm['hashes']}]
+                elif op == 'set_pl':
+                    t.piece_size = st['pl']
+                    mops = [{'k': 'setPl', 'pl': st['pl']}]
+                elif op == 'reuse':
+                    nodes, contents, cid_of = scan_fs(root, 0, plan)
+                    mcontents = []
+                    for c in contents:
+                        if c[0] == 'torrent':
+                            m = c[1]
+                            loc = local_pieces(cpath, sc['single'], m) if m['name'] == sc['name'] else []
+                            mcontents.append({'kind': 'torrent', 'cand': m, 'loc': loc})
+                        else:
+                            mcontents.append({'kind': c[0]})
+                    sitems = walk_items(texts, plan, cid_of)
+                    label = st.get('cb', 'none')
+                    interval = 1e9 if label == 'passive-interval' else 0
+                    before = meta_obs(t)
+                    calls = []
+
+                    def cb(tt, path, done, total, is_match, exc, _t=t):
+                        ok = tt is _t and (exc is None or isinstance(exc, torf.TorfError))
+                        if path is not None:
+                            path = os.fspath(path)
+                        calls.append([path if ok else 'BAD-ARGS', done, total, is_match,
+                                      None if exc is None else exc_kind(exc)])
+                    try:
+                        r = t.reuse(list(texts), callback=None if label == 'none' else cb, interval=interval)
+                        res = {'ok': r} if isinstance(r, bool) else {'ok': repr(r)}
+                    except BaseException as e:  # noqa
+                        res = {'raised': exc_kind(e)}
+                    after = meta_obs(t)
+                    run = {'label': label, 'stops': None if label == 'none' else [], 'elapsed': interval == 0, 'res': res,
+                           'calls': calls, 'before': before, 'after': after}
+                    if res == {'ok': True}:
+                        try:
+                            t.validate()
+                            run['validate'] = 'ok'
+                        except BaseException as e:  # noqa
+                            run['validate'] = exc_kind(e)
+                        try:
+                            run['verify'] = t.verify(cpath, threads=1, callback=lambda *a: None)
+                        except BaseException as e:  # noqa
+                            run['verify'] = 'raised:' + exc_kind(e)
+                    obs = {'t': dict(before, plMin=t.piece_size_min, plMax=t.piece_size_max, single=t.mode == 'singlefile'),
+                           'fs': nodes, 'contents': mcontents, 'sitems': sitems, 'paths': list(texts),
+                           'cwd': os.path.realpath(root), 'euid': 0, 'runs': [run]}
+                    hobs['steps'].append((k, obs))
+                    mops = [dict(world_req(obs, None, run), k='reuse')]
+                    for mo in mops:
+                        mo.pop('t')
+                else:
+                    raise ValueError(op)
+                hobs['ops'].append({'step': k, 'mops': mops, 'note': note, 'after': meta_obs(t)})
+        except BaseException:  # noqa
+            import traceback
+            hobs['harness_exc'] = traceback.format_exc()[-1500:]
+        out.append((sc, hobs))
+    return out
+
+
+def evaluate_hist(ctx, drv, scs):
+    results = common.pmap(_run_hist_chunk, common.split(scs, common.NPROC * 6))
+    flat = [x for chunk in results for x in chunk]
+    reqs, owner = [], []
+    for si, (sc, hobs) in enumerate(flat):
+        if 'harness_exc' in hobs:
+            ctx.machinery_error('harness could not build/run the history: ' + hobs['harness_exc'], sc)
+            continue
+        t0 = tor_json({'t': hobs['t0']}, None)
+        if hobs['t0']['pieces'] is not None:
+            t0['pieces'] = hobs['t0']['pieces']
+        reqs.append({'op': 'c18.history', 't': t0, 'ops': [mo for o in hobs['ops'] for mo in o['mops']]})
+        owner.append(si)
+    replies = drv.run(reqs)
+    for si, rep in zip(owner, replies):
+        sc, hobs = flat[si]
+        msteps = iter(rep['steps'])
+        obs_of = dict(hobs['steps'])
+        for o in hobs['ops']:
+            mlast = None
+            for _ in o['mops']:
+                mlast = next(msteps)
+            if mlast is None:
+                continue
+            k = o['step']
+            sck = dict(sc, step=k)
+            if 'reuse' in mlast:
+                if judge(ctx, sck, obs_of[k], obs_of[k]['runs'][0], mlast['reuse']) is not None:
+                    break          # the rest of the history runs from a state the model does not share
+            else:
+                # the state of the object after an operation other than reuse(): the model's bookkeeping of who holds
+                # which hashes against the real object
+                ma, ia = mlast['after'], o['after']
+                model = {'pl': ma['pl'], 'pieces': ma['pieces'], 'files': [[p_, s_] for p_, s_ in ma['files']], 'name': ma['name']}
+                impl = {kk: ia[kk] for kk in ('pl', 'pieces', 'files', 'name')}
+                ctx.case(key=_key(sck, 'state'), nontrivial=False, kind='history/state')
+                if model != impl:
+                    ctx.corr_break('c18.history', {'scenario': sck, 'callback': 'state', 'stops': None, 'interval': 0},
+                                   model, impl)
+                    break
 
 
 def run(ctx, drv):
@@ -1243,6 +2058,14 @@ def run(ctx, drv):
         'interval is modelled as a boolean "elapsed" (0 => always, 1e9 => never); intermediate intervals depend on the clock',
         'layouts are well formed: non-empty files, pairwise distinct paths, non-empty components; the torrent was made from '
         'its path (file entries carry only length and path; zero-length files on disk are not listed by torf)',
+        'histories: an operation other than reuse() enters the model as what it does to the object (generate: the hashes of the '
+        'content of that moment, computed by the harness; assignment / deletion of pieces; piece size set: hashes dropped when it '
+        'changes; path re-assigned / new object: as first made) and the model\'s state after it is compared with the real object; '
+        'size-changing damage is undone before another object is made or generate() runs',
+        'search trees with links: no permissions involved; the number of items a search yields is computed on the abstract tree '
+        '(state = real directory reached + links used so far) and must equal the walk of the real tree; trees with more than '
+        f'{SMALL // 6} predicted items are not generated except those with at least {BLOWUP:.0e}, which are run under a time limit of '
+        f'{TIME_LIMIT} s without evaluating the model (it is as exponential as the code: C18_two_loops_blowup)',
         'a readable, valid torrent file must be accepted or skipped: reuse() never ends with an internal error (TypeError, '
         'ValueError, KeyError, AssertionError …); VerifyFileSizeError / ReadError from the content check of a candidate with the '
         'torrent\'s identity are tolerated (the local content changed after the torrent object was made)',
